@@ -53,7 +53,8 @@ def m_try_acquire_owned(ex, st, callee, args, dty, site):
         return ex_.mk_variant("Result", 0, "Ok", p)
 
     def no(ex_, st_, tr):
-        return ex_.mk_variant("Result", 1, "Err", Opaque(z3.Const("TryAcquireError::NoPermits", OBJ)))
+        # tokio::sync::TryAcquireError { Closed, NoPermits }: a semaphore nobody closes only ever reports NoPermits
+        return ex_.mk_variant("Result", 1, "Err", ex_.mk_variant("TryAcquireError", 1, "NoPermits"))
     return Fork([(z3.UGT(avail, 0), ok), (avail == 0, no)])
 
 
